@@ -230,6 +230,7 @@ def parseBody (n : Nat) : List Tok → Option (List BItem)
 
 inductive TPrim where
   | def_ | gdef | newcommand | renewcommand | let_ | csname | endcsname | expandafter | relax | begingroup | endgroup
+  | ifx | else_ | fi
   deriving DecidableEq, Repr
 
 inductive TMeaning where
@@ -474,6 +475,55 @@ def visibleTok : Tok → List Nat
   | .ch 12 c => [c]
   | _ => []
 
+/-! ## `\ifx` (TeXbook ch. 20: "`\ifx` tests if two tokens agree"), inside NF-prog 4 -/
+
+/-- what `\ifx` looks at, for the two kinds of tokens NF-prog 4 admits -/
+inductive IfxKind where
+  | char (cat c : Nat)                      -- a character token: (character code, category code) is compared
+  | mac (body : List BItem)                 -- a macro without parameter text whose replacement text is plain characters
+  deriving DecidableEq, Repr
+
+def plainItem : BItem → Bool
+  | .tok (.ch 11 _) => true
+  | .tok (.ch 12 _) => true
+  | _ => false
+
+/-- `none` = outside NF-prog 4 (blank, brace, primitive, undefined name, macro with parameters or with a non-plain text) -/
+def ifxKind (tbl : Table) : Tok → Option IfxKind
+  | .ch cat c => if cat = 11 ∨ cat = 12 then some (.char cat c) else none
+  | .cs n =>
+    match tbl.lookup n with
+    | some (.macro pt body) => if pt.pre.isEmpty && pt.params.isEmpty && body.all plainItem then some (.mac body) else none
+    | _ => none
+  | .el _ => none
+
+/-- two characters agree iff code and category agree; two macros iff their texts agree token by token; a character
+    and a macro never arise inside NF-prog 4 (`none`) -/
+def ifxAgree : IfxKind → IfxKind → Option Bool
+  | .char a b, .char c d => some (a = c ∧ b = d)
+  | .mac x, .mac y => some (x = y)
+  | _, _ => none
+
+/-- skip to the matching `\fi`: (text before the `\else` of this level, text after it, input after the `\fi`).  Nested
+    conditionals are tokens whose MEANING is `\ifx`; `seenElse` = an `\else` of this level has been passed.
+    `none` = no matching `\fi`, or a second `\else`. -/
+def texBranches (tbl : Table) : Nat → Bool → List Tok → List Tok → List Tok → Option (List Tok × List Tok × List Tok)
+  | _, _, _, _, [] => none
+  | nest, seenElse, tb, fb, t :: ts =>
+    let m := match t with | .cs n => tbl.lookup n | _ => none
+    let keep (x : Tok) := if seenElse then (tb, fb ++ [x]) else (tb ++ [x], fb)
+    match m with
+    | some (.prim .ifx) => texBranches tbl (nest + 1) seenElse (keep t).1 (keep t).2 ts
+    | some (.prim .fi) =>
+      match nest with
+      | 0 => some (tb, fb, ts)
+      | k + 1 => texBranches tbl k seenElse (keep t).1 (keep t).2 ts
+    | some (.prim .else_) =>
+      match nest with
+      | 0 => if seenElse then none else texBranches tbl 0 true tb fb ts
+      | k + 1 => texBranches tbl (k + 1) seenElse (keep t).1 (keep t).2 ts
+    | _ => texBranches tbl nest seenElse (keep t).1 (keep t).2 ts
+
 /-- NF-prog: the programs of the macro language define their own names; a name currently bound to a primitive is never redefined -/
 def primBound (t : Table) (n : Name) : Bool :=
   match t.lookup n with
@@ -503,6 +553,21 @@ def texRun (ok : Name → TMeaning → Bool) : Nat → TSt → Except TErr (List
       | none => .error (.outside "undefined control sequence")
       | some (.prim .relax) => texRun ok fuel { st with input := rest }
       | some (.prim .endcsname) => .error (.outside "extra \\endcsname")
+      | some (.prim .else_) => .error (.outside "\\else outside the conditional it belongs to (NF-prog 6)")
+      | some (.prim .fi) => .error (.outside "\\fi outside the conditional it belongs to (NF-prog 6)")
+      | some (.prim .ifx) =>
+        -- the next two tokens, unexpanded; then the selected branch replaces the whole conditional (NF-prog 6: every body
+        -- and argument is well nested, so selecting the text now or skipping it later is the same)
+        match rest with
+        | t1 :: t2 :: r =>
+          match ifxKind st.cur t1, ifxKind st.cur t2 with
+          | some k1, some k2 =>
+            match ifxAgree k1 k2, texBranches st.cur 0 false [] [] r with
+            | some b, some (tb, fb, after) => texRun ok fuel { st with input := (if b then tb else fb) ++ after }
+            | none, _ => .error (.outside "\\ifx between a character and a macro (NF-prog 4)")
+            | _, none => .error (.outside "conditional without matching \\fi")
+          | _, _ => .error (.outside "\\ifx on a token outside NF-prog 4")
+        | _ => .error (.outside "\\ifx at end of input")
       | some (.prim .begingroup) => texRun ok fuel { st with input := rest, saved := st.cur :: st.saved }
       | some (.prim .endgroup) =>
         match st.saved with
@@ -553,6 +618,14 @@ def texRun (ok : Name → TMeaning → Bool) : Nat → TSt → Except TErr (List
         | .ok none => .error (.outside "unexpected unexpandable")
         | .ok (some inp) => texRun ok fuel { st with input := inp }
 
+/-- the primitives of the macro language plus the conditional `\ifx … \else … \fi` of NF-prog 4 -/
+def condTable : Table :=
+  let n (s : String) : Name := s.toList.map Char.toNat
+  primTable ++ [ (n "ifx", .prim .ifx), (n "else", .prim .else_), (n "fi", .prim .fi) ]
+
+/-- the evaluation the correspondence uses as the property's oracle: the macro language with `\ifx` -/
+def texProgramC (fuel : Nat) (p : List Tok) : Except TErr (List Nat) := texRun (fun _ _ => true) fuel ⟨p, condTable, []⟩
+
 /-- the whole macro language: no restriction on definitions -/
 def texProgram (fuel : Nat) (p : List Tok) : Except TErr (List Nat) := texRun (fun _ _ => true) fuel ⟨p, primTable, []⟩
 
@@ -568,7 +641,8 @@ def starN : Name := [42]
 /-- names that a program of the proved fragment never defines: the classes behind the brace characters, the two
     control symbols plasTeX's argument readers confuse with `=` and `*`, and the primitives plasTeX knows under names
     the macro language of the Spec does not have -/
-def reservedNames : List Name := [bgroupN, egroupN, eqN, starN, nm "edef", nm "xdef", nm "providecommand"]
+def reservedNames : List Name :=
+  [bgroupN, egroupN, eqN, starN, nm "edef", nm "xdef", nm "providecommand", nm "ifx", nm "else", nm "fi"]
 
 /-- the control sequence `\ifx` -/
 def texIsIfx : Tok → Bool
